@@ -9,9 +9,9 @@ META = {
         "technique": "Lean 4 invariant/decision-logic proofs + differential correspondence of model and real actor",
     },
     "C17": {
-        "text": "Lean 4 theorems, one per arithmetic/comparison/bitwise EVM instruction (ADD MUL SUB DIV SDIV MOD SMOD ADDMOD MULMOD EXP SIGNEXTEND LT GT SLT SGT EQ ISZERO AND OR XOR NOT BYTE SHL SHR SAR CLZ): the transliteration of the Rust algorithm (i256 sign stripping, sar negate/shift/fill, signextend mask, 512-bit addmod/mulmod, square-and-multiply exp, saturating shifts) equals the Yellow Paper / EIP-145 / EIP-7939 definition over Nat/Int for all 2^256-sized operands; all 26 fully proved (none partial), plus step theorems of an executable interpreter model: PUSH0-32 incl. the truncated-push rule, DUP, SWAP, CALLDATALOAD zero fill for any 256-bit index, every word opcode pushes xSpec, RETURNDATACOPY bounds failure, MSTORE (partial: stack/pc/failure + model memory). The model is tied to the code on every run: every opcode is executed on the real EVM actor (deployed through the EAM, invoked with InvokeContract in the harness VM) on all pairs of operand classes (0,1,2,2^k,2^k+-1,2^255,2^255+-1,2^256-1,random,small,shift amounts...) and compared with xImpl, xSpec and an independent big-integer oracle; generated multi-instruction programs (loops, computed jumps to valid/invalid targets, memory to 64 KiB, storage/transient storage, calldata/code/returndata copies, KECCAK256) are compared with the Lean interpreter on outcome class, return/revert data and final storage.",
+        "text": "Lean 4 theorems, one per arithmetic/comparison/bitwise EVM instruction (ADD MUL SUB DIV SDIV MOD SMOD ADDMOD MULMOD EXP SIGNEXTEND LT GT SLT SGT EQ ISZERO AND OR XOR NOT BYTE SHL SHR SAR CLZ): the transliteration of the Rust algorithm (i256 sign stripping, sar negate/shift/fill, signextend mask, 512-bit addmod/mulmod, square-and-multiply exp, saturating shifts) equals the Yellow Paper / EIP-145 / EIP-7939 definition over Nat/Int for all 2^256-sized operands; all 26 fully proved (none partial), plus step theorems of an executable interpreter model: PUSH0-32 incl. the truncated-push rule, DUP, SWAP, CALLDATALOAD zero fill for any 256-bit index, every word opcode pushes xSpec, CALLDATACOPY/CODECOPY zero fill (copyToMemory_zero_fill), RETURNDATACOPY bounds failure, MSTORE (partial: stack/pc/failure + model memory). The model is tied to the code on every run: every opcode is executed on the real EVM actor (deployed through the EAM, invoked with InvokeContract in the harness VM) on all pairs of operand classes (0,1,2,2^k,2^k+-1,2^255,2^255+-1,2^256-1,random,small,shift amounts...) and compared with xImpl, xSpec and an independent big-integer oracle; generated multi-instruction programs (loops, computed jumps to valid/invalid targets, memory to 64 KiB, storage/transient storage, calldata/code/returndata copies, KECCAK256) are compared with the Lean interpreter on outcome class, return/revert data and final storage.",
         "design_ref": "DESIGN.md §7 C17",
-        "note": "Trusted: Lean kernel (axioms propext, Classical.choice, Quot.sound only); the spec side is a hand transcription of the Yellow Paper/EIPs (two independent ones are compared: Lean and Rust big integers); the `uint` crate primitives are modelled as exact machine arithmetic; the interpreter model (memory, storage, control flow) is tied differentially only - its step theorems cover PUSH/DUP/SWAP/CALLDATALOAD/word opcodes/RETURNDATACOPY bounds; memory content of MLOAD/MSTORE8/MCOPY/*COPY, storage, KECCAK256 and the jump analysis are correspondence-only (jumpdest theorem is C18's); Keccak-256 is an oracle; gas, calls to other actors, logs, context opcodes out of scope; harness VM in place of ref-fvm.",
+        "note": "Trusted: Lean kernel (axioms propext, Classical.choice, Quot.sound only); the spec side is a hand transcription of the Yellow Paper/EIPs (two independent ones are compared: Lean and Rust big integers); the `uint` crate primitives are modelled as exact machine arithmetic; the interpreter model (memory, storage, control flow) is tied differentially only - its step theorems cover PUSH/DUP/SWAP/CALLDATALOAD/CALLDATACOPY/word opcodes/RETURNDATACOPY bounds; memory content of MLOAD/MSTORE8/MCOPY/RETURNDATACOPY, storage, KECCAK256 and the jump analysis are correspondence-only (jumpdest theorem is C18's); Keccak-256 is an oracle; gas, calls to other actors, logs, context opcodes out of scope; harness VM in place of ref-fvm.",
         "technique": "Lean 4 algebraic laws (xImpl = xSpec for all operands) + differential correspondence of the real EVM actor against the compiled Lean interpreter and word functions",
     },
 }
